@@ -23,12 +23,10 @@ USERS = ["u1@example.com", "u2@example.com", "u3@example.com", "u4@example.com",
 # ----------------------------------------------------------------------------
 # Coq encoding
 
-def cb(b):
-    """Coq term of type str for a byte string: printable runs as S_ "..." """
-    if isinstance(b, str):
-        b = b.encode("latin-1")
-    if not b:
-        return "[]"
+_RUN = re.compile(rb"([ -~]{1,5}?)\1{23,}", re.S)
+
+
+def _cb_plain(b):
     parts = []
     i = 0
     while i < len(b):
@@ -46,6 +44,26 @@ def cb(b):
             else:
                 parts.append("bs [%s]%%nat" % ";".join(str(c) for c in seg))
         i = j
+    return parts
+
+
+def cb(b):
+    """Coq term of type str for a byte string: printable runs as S_ "...", long periodic
+    runs (the filler of long lines) as rpt <count> (S_ "<period>")"""
+    if isinstance(b, str):
+        b = b.encode("latin-1")
+    if not b:
+        return "[]"
+    parts = []
+    pos = 0
+    if len(b) >= 48:
+        for m in _RUN.finditer(b):
+            pat = m.group(1)
+            cnt = (m.end() - m.start()) // len(pat)
+            parts += _cb_plain(b[pos:m.start()])
+            parts.append('rpt %d (S_ "%s")' % (cnt, pat.decode("ascii").replace('"', '""')))
+            pos = m.start() + cnt * len(pat)
+    parts += _cb_plain(b[pos:])
     return "(" + " ++ ".join(parts) + ")"
 
 
@@ -176,6 +194,103 @@ def gen_refusal_program(rng, idx, ms, mr, verb, up, kind):
     txs.append((rc2, good))
     out.append(b"QUIT\r\n")
     return b"".join(out), txs
+
+
+# ---- long physical lines (longer than the session's 4096-octet reader buffer)
+LONG_LENS = [4095, 4096, 4097, 8191, 8192, 8193]
+DOT_PIECES = [b".", b"..", b".x", b"...", b". ", b"..y"]
+
+
+def long_line(rng, kind=None):
+    """one body line (with its EOL) longer than bufio's buffer, with dots at offsets that are
+    0, 1 or 4095 modulo 4096 from the start of the line and at random offsets"""
+    e = eol(rng, 0.3)
+    fill = rng.choice([b"x", b"ab", b"long "])
+    if kind == "dot_at_boundary":       # 4096*k octets, then "." and the EOL
+        k = rng.choice([1, 1, 2])
+        return (fill * 4096)[:4096 * k] + b"." + e
+    if kind == "dotdot_at_boundary":    # 4096*k octets, then ".." and more text
+        k = rng.choice([1, 1, 2])
+        return (fill * 4096)[:4096 * k] + rng.choice([b"..", b"..tail", b"...", b".. "]) + e
+    n = rng.choice(LONG_LENS + [rng.randint(4098, 9000), rng.randint(4098, 20000)])
+    b = bytearray((fill * (n // len(fill) + 1))[:n])
+    offs = [4096 * k + d for k in range(n // 4096 + 1) for d in (0, 1, 4095)]
+    chosen = rng.sample(offs, min(len(offs), rng.randint(1, 3))) + [rng.randrange(n) for _ in range(rng.randint(0, 2))]
+    for o in chosen:
+        piece = rng.choice(DOT_PIECES)
+        if o + len(piece) <= n:
+            b[o:o + len(piece)] = piece
+    return bytes(b) + e
+
+
+def gen_long_body(rng, force=None):
+    lines = [b"From: a@example.com\r\n", b"To: b@example.com\r\n", b"\r\n"]
+    if rng.random() < 0.5:
+        lines.append(b"short line\r\n")
+    kinds = [force] if force else []
+    kinds += [rng.choice([None, None, "dot_at_boundary", "dotdot_at_boundary"]) for _ in range(rng.randint(0, 2))]
+    for k in kinds:
+        lines.append(long_line(rng, k))
+        for _ in range(rng.choice([0, 1, 2])):
+            lines.append(rng.choice(LOOKALIKES).encode() + b"\r\n")
+    lines.append(rng.choice([b"after\r\n", b".\r\n", b"end\n"]))
+    return lines
+
+
+LONG_CONFIGS = [(100000, 1), (100000, 3)]
+
+
+def run_long_probes(chk, extra, stats):
+    """sessions whose bodies have physical lines longer than the 4096-octet reader buffer,
+    with ".", "..", ".x" exactly at multiples of 4096 from the line start (and nearby, and at
+    random offsets), followed by LMTP look-alikes; judged by stream_ok and delivered_ok"""
+    rng = chk.rng
+    cases = []
+    plan = ["dot_at_boundary", "dotdot_at_boundary", "dot_at_boundary", None] + [rng.choice([None, "dot_at_boundary", "dotdot_at_boundary"]) for _ in range(extra)]
+    for i, force in enumerate(plan):
+        ms, mr = rng.choice(LONG_CONFIGS)
+        n = rng.randint(1, mr)
+        rc = ["ll%dr%d@example.com" % (i, k) for k in range(n)]
+        body = gen_long_body(rng, force)
+        out = [b"LHLO long.example\r\n", b"MAIL FROM:<a@example.com>\r\n"] + [("RCPT TO:<%s>\r\n" % r).encode() for r in rc]
+        out += [b"DATA\r\n"] + stuff(body) + [b".\r\n", b"NOOP\r\n", b"QUIT\r\n"]
+        c = mk_case(b"".join(out), ms, mr, rng.choice([1, 0, 7]) if size_of(body) < 9000 else 0, {"flavour": "long", "kind": force or "random"})
+        c["txs"] = [(rc, body)]
+        c["observe"] = rc
+        cases.append(c)
+    return run_probe_sessions(chk, cases, stats, "long_line_probe",
+                              "a body line longer than the reader's buffer is not treated as one line of data")
+
+
+# ---- a client that waits for its replies
+def gen_lockstep(rng, idx, mr):
+    """the client's WRITES: after each it waits for the replies it is owed before sending
+    more.  Blank / whitespace-only lines follow commands and the terminating dot inside the
+    same write."""
+    def blank(p=0.6):
+        return rng.choice([b"\r\n", b" \r\n", b"\t\r\n", b"\n", b"\r\n\r\n"]) if rng.random() < p else b""
+    segs = [b"LHLO wait.example\r\n" + blank()]
+    for t in range(rng.choice([1, 2])):
+        n = rng.randint(1, mr)
+        rc = [("RCPT TO:<ls%dt%dr%d@example.com>\r\n" % (idx, t, k)).encode() for k in range(n)]
+        body = [b"From: a@example.com\r\n", b"To: b@example.com\r\n", b"\r\n", ("wait %d.%d\r\n" % (idx, t)).encode()]
+        style = rng.choice(["lock", "group", "pipelined"])
+        if style == "lock":
+            segs.append(b"MAIL FROM:<a@example.com>\r\n" + blank())
+            segs += [r + blank(0.4) for r in rc]
+            segs.append(b"DATA\r\n")
+            segs.append(b"".join(stuff(body)) + b".\r\n" + blank(0.9))
+            segs.append(b"NOOP\r\n" + blank(0.9))
+        elif style == "group":
+            segs.append(b"MAIL FROM:<a@example.com>\r\n" + b"".join(rc) + b"DATA\r\n")
+            segs.append(b"".join(stuff(body)) + b".\r\n" + blank(0.9))
+            segs.append(b"NOOP\r\n" + blank(0.9) + b"RSET\r\n" + blank(0.5))
+        else:
+            segs.append(b"MAIL FROM:<a@example.com>\r\n" + blank(0.3) + b"".join(rc) + b"DATA\r\n" + b"".join(stuff(body)) + b".\r\n" + blank(0.9))
+            segs.append(b"NOOP\r\n")
+    if rng.random() < 0.7:
+        segs.append(b"QUIT\r\n")
+    return segs
 
 
 def gen_dot_program(rng, idx, mr):
@@ -345,7 +460,13 @@ def gen_reader_cases(rng, n):
     for i in range(n):
         mx = rng.choice([0, 5, 20, 60, 200])
         r = rng.random()
-        if i % 5 == 0:
+        if i % 25 == 3:
+            # long physical lines (> 4096 octets) with dots at the buffer boundaries
+            b = gen_long_body(rng, rng.choice(["dot_at_boundary", "dotdot_at_boundary", None]))
+            term = rng.choice([b".\r\n", b".\n"])
+            rest = rng.choice([b"NOOP\r\n", b"MAIL FROM:<n@example.com>\r\n", b""])
+            cases.append((b, term, rest, 100000, b"".join(stuff(b)) + term + rest))
+        elif i % 5 == 0:
             # dot probe: a body of dot lines and LMTP look-alikes that fits the limit
             b = gen_dot_body(rng)
             term = rng.choice([b".\r\n", b".\n"])
@@ -424,7 +545,8 @@ def run_sessions(cases):
             keys.append(part)
             scen.append([{"op": "lmtp_script", "max_size": ms, "max_recipients": mr,
                           "programs": [dict({"input": C.latin(cases[i]["input"]), "chunk": cases[i]["chunk"]},
-                                            **({"observe": cases[i]["observe"]} if cases[i].get("observe") else {})) for i in part]}])
+                                            **({"observe": cases[i]["observe"]} if cases[i].get("observe") else {}),
+                                            **({"segments": [C.latin(x) for x in cases[i]["segments"]]} if cases[i].get("segments") else {})) for i in part]}])
     res = C.run_many(scen, workers=8, timeout=900)
     for part, r in zip(keys, res):
         if r.get("crashed") or not r["obs"] or "rs" not in r["obs"][0]:
@@ -437,12 +559,15 @@ def run_sessions(cases):
             cases[i]["unread"] = o.get("unread")
             cases[i]["panic"] = o.get("panic")
             cases[i]["stored"] = o.get("stored")
+            cases[i]["snaps"] = o.get("snaps")
 
 
 COQ_HDR = C.COQ_CASE_HEADER + """From Raven Require Import Base.Enum Model.Lmtp Model.LmtpMsg Spec.LmtpDialog Spec.LmtpStream.
 Local Open Scope list_scope.
 Local Open Scope Z_scope.
 Definition b2n (b : bool) (n : N) : N := if b then n else 0%N.
+Definition rpt (n : N) (p : str) : str := N.iter n (fun acc => p ++ acc) [].
+Arguments rpt n%N p.
 """
 
 COQ_SESSION = """
@@ -526,7 +651,7 @@ def eval_dots(chk, cases):
     body = COQ_HDR + COQ_DOTS
     body += "Definition cases_d : list (Z * Z * str * list reply * option N * list (list (list str) * list (Z * str)) * list str) :=\n" + clist(items) + ".\n"
     body += "Definition res_d := Eval vm_compute in map chk_d cases_d.\nPrint res_d.\n"
-    rc, log = C.coq_eval_cases("C16", body)
+    rc, log = C.coq_eval_cases(getattr(chk, "case_name", "C16"), body)
     if rc != 0:
         chk.broken_obligation("in-Coq evaluation of the C16 dot-probe cases failed:\n" + log[-2500:])
         return None
@@ -702,6 +827,82 @@ def run_probe_sessions(chk, cases, stats, label, headline, runner=None):
     return good
 
 
+COQ_LOCK = """
+Definition chk_l (x : Z * Z * list (str * list reply) * str * list reply) : N :=
+  let '(ms, mr, prefixes, input, reps) := x in
+  let c := {| max_size := ms; max_rcpts := mr |} in
+  let acc := msg_ok ms in
+  let dl : str -> str -> bool := fun _ _ => true in
+  let ov : str -> str -> bool := fun _ _ => false in
+  (* while the connection is open: the replies that had reached the client when the
+     server asked for more input, against the model (run_open) and against the spec *)
+  let m_open := forallb (fun '(p, rs) => evs_match (run_open acc dl ov c st0 MCmd (fst (split_lines p))) rs) prefixes in
+  let sp_open := forallb (fun '(p, rs) => stream_ok mr (fst (split_lines p)) rs) prefixes in
+  let '(evs, _) := session acc dl ov c input in
+  (b2n (m_open && evs_match evs reps) 1 + b2n (sp_open && stream_ok mr (fst (split_lines input)) reps) 2)%N.
+"""
+
+
+def run_lockstep_probes(chk, n, stats):
+    """a client that, after each of its writes, waits for the replies it is owed before it
+    sends more (blank lines after commands and after the terminating dot inside the same
+    write).  Observed: what had reached the client each time the server asked for more input.
+    Judged in Coq: at each of these moments the replies owed for the bytes sent so far are all
+    there (stream_ok on the prefix; the model's run_open on the prefix)"""
+    rng = chk.rng
+    cases = []
+    for i in range(n):
+        mr = rng.choice([1, 3])
+        segs = gen_lockstep(rng, i, mr)
+        c = mk_case(b"".join(segs), 2000, mr, rng.choice([0, 1, 7]), {"flavour": "lockstep"})
+        c["segments"] = segs
+        cases.append(c)
+    run_sessions(cases)
+    good = []
+    for c in cases:
+        if "crash" in c:
+            chk.broken_obligation("driver crashed while running the lock-step sessions: %s" % c["crash"][:400], session_payload(c))
+            return []
+        if c.get("panic") or not c.get("returned"):
+            session_violation(chk, "lmtp.Session.Handle panicked or did not return on %r" % c["input"][:200], c)
+            continue
+        c["greet"], c["reps"], c["wf"] = parse_replies(c["out"])
+        c["prefixes"] = []
+        for k, sn in enumerate(c.get("snaps") or []):
+            _, rp, _ = parse_replies(c["out"][:sn])
+            c["prefixes"].append((b"".join(c["segments"][:k + 1]), rp))
+        good.append(c)
+    items = []
+    for c in good:
+        pre = "[" + "; ".join("(%s, %s)" % (cb(p), "[" + "; ".join(coq_reply(r) for r in rp) + "]") for p, rp in c["prefixes"]) + "]"
+        items.append("(%d, %d, %s, %s, %s)" % (c["ms"], c["mr"], pre, cb(c["input"]), "[" + "; ".join(coq_reply(r) for r in c["reps"]) + "]"))
+    body = COQ_HDR + COQ_LOCK + "Definition cases_l : list (Z * Z * list (str * list reply) * str * list reply) :=\n" + clist(items) + ".\n"
+    body += "Definition res_l := Eval vm_compute in map chk_l cases_l.\nPrint res_l.\n"
+    rc, log = C.coq_eval_cases(getattr(chk, "case_name", "C16"), body)
+    codes = parse_codes(log, "res_l") if rc == 0 else None
+    if codes is None or len(codes) != len(good):
+        chk.broken_obligation("in-Coq evaluation of the C16 lock-step cases failed:\n" + log[-2500:])
+        return good
+    for c, code in zip(good, codes):
+        m, sp = bool(code & 1), bool(code & 2)
+        if sp:
+            if not m:
+                stats["disagreements"] += 1
+                chk.broken_obligation("correspondence session no longer checks on a lock-step session (spec holds): writes %r, visible replies %s" % (
+                    c["segments"], [[r[0] for r in rp] for _, rp in c["prefixes"]]), session_payload(c))
+            continue
+        stats["lockstep_violations"] = stats.get("lockstep_violations", 0) + 1
+        if stats["lockstep_violations"] > 3:
+            continue
+        payload = session_payload(c)
+        payload["segments"] = [C.latin(x) for x in c["segments"]]
+        payload["visible_reply_codes_when_server_waited"] = [[r[0] for r in rp] for _, rp in c["prefixes"]]
+        session_violation(chk, "replies owed are not sent: after the client's writes %r the server waited for more input while the client had received only %s "
+                               "(each list: reply codes visible after that write; the client waits for its replies before sending more, so both sides block)" % (
+                                   c["segments"][:6], payload["visible_reply_codes_when_server_waited"][:6]), c, payload)
+    return good
+
+
 def coq_reply(rp):
     return "(%d%%N, %s)" % (rp[0], cb(rp[1]))
 
@@ -719,7 +920,7 @@ def eval_sessions(chk, cases):
                                                   "[" + "; ".join(coq_reply(r) for r in c["reps"]) + "]", unread))
         body = COQ_HDR + COQ_SESSION + "Definition cases_s : list (Z * Z * str * list reply * option N) :=\n" + clist(items) + ".\n"
         body += "Definition res_s := Eval vm_compute in map chk_s cases_s.\nPrint res_s.\n"
-        rc, log = C.coq_eval_cases("C16", body)
+        rc, log = C.coq_eval_cases(getattr(chk, "case_name", "C16"), body)
         if rc != 0:
             chk.broken_obligation("in-Coq evaluation of the C16 session cases failed:\n" + log[-2500:])
             return None
@@ -750,6 +951,7 @@ def session_violation(chk, what, c, payload=None):
     a tree that was being updated during the build - is recorded as a note, not raised)."""
     again = mk_case(c["input"], c["ms"], c["mr"], c["chunk"])
     again["observe"] = c.get("observe")
+    again["segments"] = c.get("segments")
     try:
         if c.get("prefill") is not None:
             # quota session: same configuration, mailboxes filled again first
@@ -769,6 +971,7 @@ def session_violation(chk, what, c, payload=None):
     except Exception as e:  # noqa: BLE001
         again["crash"] = str(e)
     same = ("crash" not in again and again.get("out") == c.get("out") and again.get("returned") == c.get("returned")
+            and (not c.get("segments") or again.get("snaps") == c.get("snaps"))
             and again.get("panic") == c.get("panic") and (again.get("stored") == c.get("stored")))
     if same:
         chk.violation(what, payload or session_payload(c))
@@ -776,6 +979,38 @@ def session_violation(chk, what, c, payload=None):
     chk.notes.append("not reproducible on a second run, not raised: " + what[:300])
     return False
 
+
+
+class SubCheck:
+    """what one probe suite needs of the Check object, so that the suites can run side by
+    side: an own random stream (drawn from the check's stream before the threads start, so
+    the run stays a function of the seed), own lists of violations / notes that are merged
+    in a fixed order afterwards, an own name for the Coq case file"""
+
+    def __init__(self, chk, label):
+        import random
+        self.rng = random.Random(chk.rng.getrandbits(64))
+        self.tier = chk.tier
+        self.case_name = "C16_" + label
+        self.notes = []
+        self.calls = []
+        self.stats = {"disagreements": 0}
+
+    def violation(self, what, payload, cls=None):
+        self.calls.append(("v", what, payload))
+
+    def broken_obligation(self, what, payload=None):
+        self.calls.append(("b", what, payload))
+
+    def merge_into(self, chk, stats):
+        for kind, what, payload in self.calls:
+            if kind == "v":
+                chk.violation(what, payload)
+            else:
+                chk.broken_obligation(what, payload)
+        chk.notes += self.notes
+        for k, v in self.stats.items():
+            stats[k] = stats.get(k, 0) + v
 
 
 def load_corpus():
@@ -836,20 +1071,8 @@ def probe_neighbourhood(chk, c):
 
 # ----------------------------------------------------------------------------
 
-def run(chk):
+def _run_rest(chk, stats, quick, n_sess, n_reader, n_parse, join_probes):
     rng = chk.rng
-    quick = chk.tier == "quick"
-    n_sess = 260 if quick else 3000
-    n_reader = 500 if quick else 5000
-    n_parse = 150 if quick else 1500
-    stats = {"evaluated": 0, "spec_violations_seen": 0, "disagreements": 0}
-
-    # ---------------- dot probes: run first so that their session replays head the report;
-    # they are also the property-level search consulted after a reader mismatch
-    dots = run_dot_probes(chk, 24 if quick else 400, stats)
-    refs = run_refusal_probes(chk, 7 if quick else 200, stats)
-    quos = run_quota_probes(chk, 5 if quick else 150, stats)
-
     # ---------------- direct calls: reader, parse, verdict
     rcases = gen_reader_cases(rng, n_reader)
     pargs = parse_args_cases(rng, n_parse)
@@ -894,7 +1117,7 @@ def run(chk):
     body += ("Definition res_p := Eval vm_compute in map (fun '(a, m, r) => (b2n (ostr_eqb (parse_mail_from a) m) 1 + b2n (ostr_eqb (parse_rcpt_to a) r) 2)%N) cases_p.\nPrint res_p.\n")
     body += "Definition cases_v : list (str * bool) :=\n" + clist(["(%s, %s)" % (cb(m), C.coq_bool(v is True)) for m, v in zip(msgs, r_verd)]) + ".\n"
     body += "Definition res_v := Eval vm_compute in map (fun '(d, v) => b2n (Bool.eqb (msg_ok 1000 d) v) 1) cases_v.\nPrint res_v.\n"
-    rc, log = C.coq_eval_cases("C16", body)
+    rc, log = C.coq_eval_cases(getattr(chk, "case_name", "C16"), body)
     if rc != 0:
         chk.broken_obligation("in-Coq evaluation of the C16 direct-call cases failed:\n" + log[-2500:])
         return
@@ -982,6 +1205,7 @@ def run(chk):
                 [r[0] for r in c["reps"]], c["input"][:200], c["ms"], c["mr"]), session_payload(c))
 
     # ---------------- reader mismatches: with a property-level failing input at hand they are notes
+    dots, refs, quos, longs, locks = join_probes()
     real = [v for v in chk.violations if not v[2]]
     for what, payload in reader_pending:
         if real:
@@ -991,7 +1215,7 @@ def run(chk):
 
     # ---------------- evidence
     with_tx = [c for c in good if any(r[0] == 354 for r in c["reps"])]
-    chk.cov["evaluations"] = len(rcases) + 2 * len(pargs) + len(msgs) + len(good) + len(dots) + len(refs) + len(quos)
+    chk.cov["evaluations"] = len(rcases) + 2 * len(pargs) + len(msgs) + len(good) + len(dots) + len(refs) + len(quos) + len(longs) + len(locks)
     chk.cov["traces_validated_against_impl"] = len(good) + len(dots) + len(refs)
     chk.cov["distinct_nontrivial"] = len(set(c["input"] for c in with_tx)) + len(set(s for (b, t, r, mx, s) in rcases if t and b))
     chk.cov["rule"] = ("session: distinct client byte streams (seeded; LHLO/MAIL/RCPT/DATA variants in case and spacing, ESMTP parameters, RSET, repeated MAIL, "
@@ -1022,6 +1246,13 @@ def run(chk):
                                        "config": QUOTA_CFG, "full_mailboxes": QUOTA_FULL,
                                        "patterns": sorted(set(c["info"].get("pattern", "prefill") for c in quos)),
                                        "judged_by": "stream_ok (k-th final reply names the k-th accepted recipient) and delivered_ok on the store delta (positive iff the store gained the message); model run with the over-quota set as input"}
+    chk.cov["long_line_probe_sessions"] = {"total": len(longs), "violations": stats.get("long_line_probe_violations", 0),
+                                           "what": "body lines of 4095..20000 octets with '.', '..', '.x' at offsets 0/1/4095 mod 4096 from the line start and at random offsets, incl. 4096k octets + '.' + EOL and 4096k octets + '..'; followed by LMTP look-alikes",
+                                           "judged_by": "stream_ok and delivered_ok (stored size and text, blob content included)"}
+    chk.cov["lockstep_sessions"] = {"total": len(locks), "violations": stats.get("lockstep_violations", 0),
+                                    "client_waits_checked": sum(len(c.get("prefixes", [])) for c in locks),
+                                    "what": "client writes followed by a wait for the replies owed; blank / whitespace-only lines after commands and after the terminating dot in the same write",
+                                    "judged_by": "at every moment the server asks for more input: stream_ok and run_open on the bytes sent so far against the replies that had reached the client"}
     chk.cov["parse_cases"] = len(pargs)
     chk.cov["verdict_cases"] = len(msgs)
     for c in with_tx[:3]:
@@ -1029,11 +1260,67 @@ def run(chk):
     chk.notes.append("model domain: command lines are ASCII (TrimSpace/ToUpper/Fields modelled for ASCII); AllowedDomains empty, RejectUnknownUser and quota off")
 
 
+
+def run(chk):
+    rng = chk.rng
+    quick = chk.tier == "quick"
+    n_sess = 260 if quick else 3000
+    n_reader = 500 if quick else 5000
+    n_parse = 150 if quick else 1500
+    stats = {"evaluated": 0, "spec_violations_seen": 0, "disagreements": 0}
+
+    # ---------------- probe suites: started first, run side by side with the rest (each in
+    # its own thread: they spend their time in driver and coqc subprocesses); their session
+    # replays head the report; they are also the property-level search consulted after a
+    # reader mismatch
+    import threading
+    C.build_driver()
+    suites = [("dots", run_dot_probes, 24 if quick else 400), ("refusal", run_refusal_probes, 7 if quick else 200),
+              ("quota", run_quota_probes, 5 if quick else 150), ("long", run_long_probes, 4 if quick else 80),
+              ("lockstep", run_lockstep_probes, 24 if quick else 300)]
+    subs, results, threads = {}, {}, []
+    for label, fn, n in suites:
+        subs[label] = SubCheck(chk, label)
+
+        def work(label=label, fn=fn, n=n):
+            try:
+                results[label] = fn(subs[label], n, subs[label].stats)
+            except Exception as e:  # noqa: BLE001
+                import traceback
+                results[label] = []
+                subs[label].broken_obligation("probe suite %s failed to run: %s\n%s" % (label, e, traceback.format_exc()[-1500:]))
+        th = threading.Thread(target=work)
+        th.start()
+        threads.append(th)
+
+    state = {"joined": None}
+
+    def join_probes():
+        if state["joined"] is not None:
+            return state["joined"]
+        for th in threads:
+            th.join()
+        mine = chk.violations
+        chk.violations = []
+        for label, _, _ in suites:
+            subs[label].merge_into(chk, stats)
+        chk.violations += mine
+        state["joined"] = [results.get(label, []) for label, _, _ in suites]
+        return state["joined"]
+
+    try:
+        _run_rest(chk, stats, quick, n_sess, n_reader, n_parse, join_probes)
+    finally:
+        join_probes()
+
+
 def replay(path):
     d = json.load(open(path))
     if d.get("suite") == "session":
         c = mk_case(C.unlatin(d["input"]), d["max_size"], d["max_recipients"], d.get("chunk", 1))
         c["observe"] = d.get("observe") or []
+        if d.get("segments"):
+            c["segments"] = [C.unlatin(x) for x in d["segments"]]
         if d.get("prefill_input"):
             pre = mk_case(C.unlatin(d["prefill_input"]), d["max_size"], d["max_recipients"], 0)
             pre["observe"] = d.get("prefill_observe") or []
@@ -1043,6 +1330,9 @@ def replay(path):
             run_sessions([c])
         print("input:  %r" % c["input"])
         print("output: %r" % c.get("out"))
+        if c.get("segments"):
+            for k, sn in enumerate(c.get("snaps") or []):
+                print("after write %d %r the client had received: %r" % (k, c["segments"][k], c["out"][:sn][-160:]))
         if c["observe"]:
             print("stored: %r" % c.get("stored"))
             print("submitted: %r" % d.get("submitted_bodies"))
